@@ -111,7 +111,8 @@ def make_variant(kind: str, rng: random.Random) -> dict:
             v["sha"] = rng.random() < 0.5
     elif kind.startswith("mbi"):
         v.update(family=core.pick(rng, MBI_FAMILIES), keysource=core.pick(rng, ["OTP", "KEYSTORE"]),
-                 hmac=rng.randrange(2), app_len=core.pick(rng, [256, 1024, 3000]), cert=rng.randrange(4))
+                 hmac=rng.randrange(2), app_len=core.pick(rng, [256, 1024, 3000]), cert=rng.randrange(4),
+                 shared_cfg=rng.random() < 0.5)
     elif kind == "otfad_keyblob":
         v.update(supply=_subset(rng, ["key", "counter"], [0, 0, 0, 1]), byte_swap=rng.random() < 0.5,
                  dlen=core.pick(rng, [64, 512, 1024]), kek=rng.randrange(2), container=rng.random() < 0.4)
@@ -187,6 +188,7 @@ class Env:
         self.workdir = workdir
         self.seed = seed
         self.repo = core.repo_root()
+        self.shared: dict = {}   # objects the caller keeps between builds (e.g. ONE configuration dict reused in a loop)
         os.makedirs(workdir, exist_ok=True)
 
     def dir(self, aid) -> str:
@@ -388,7 +390,7 @@ class MbiArt(Art):
 
     def option_class(self):
         v = self.var
-        return f"{v['family']} {v['keysource']} app={v['app_len']}"
+        return f"{v['family']} {v['keysource']} app={v['app_len']} shared_cfg={v.get('shared_cfg', False)}"
 
     def construct(self):
         from spsdk.image.keystore import KeySourceType, KeyStore
@@ -420,6 +422,13 @@ class MbiArt(Art):
                    "outputImageEncryptionKeyFile": hmac_key.hex()}
             if v["keysource"] == "KEYSTORE":
                 cfg["keyStoreFile"] = _write(os.path.join(d, "ks.bin"), bytes(KeyStore.KEY_STORE_SIZE))
+            if v.get("shared_cfg"):
+                # a script that loads its configuration once and builds several images from the SAME dictionary object,
+                # changing only what differs: whatever a build leaves behind in the dictionary reaches the next build
+                base = self.env.shared.setdefault("mbi_cfg", {})
+                base.pop("keyStoreFile", None)
+                base.update(cfg)
+                cfg = base
             cls = get_mbi_class(cfg)
             check_config(cfg, cls.get_validation_schemas(v["family"]), search_paths=[d])
             mbi = cls()
@@ -945,6 +954,11 @@ def judge(draws: list, arts: list[dict], ctr_calls: list, stats: collections.Cou
     for i, s in enumerate(longs):
         for t in longs[i + 1:]:
             if s["art"]["aid"] == t["art"]["aid"]:
+                # rule 1b: two different self-chosen secrets of ONE artifact (e.g. the key info blocks of the two BEE
+                # engines) are separate draws as well: the same value in two roles means one draw served both
+                if s["name"] != t["name"] and s["val"] == t["val"]:
+                    stats["rule1_pairs"] += 1
+                    s.setdefault("same_role", []).append(t)
                 continue
             stats["rule1_pairs"] += 1
             if monitors.near_equal(s["val"], t["val"]):
@@ -970,6 +984,11 @@ def judge(draws: list, arts: list[dict], ctr_calls: list, stats: collections.Cou
     for s in secrets:
         a = s["art"]
         repeated = bool(s.get("same_as") or s.get("same_as_prior") or s.get("shared_draw"))
+        if s.get("same_role"):
+            t = s["same_role"][0]
+            fnd.add(f"secret-shared-by-two-roles-of-one-artifact:{a['kind']}.{s['name'].split('.')[-1]}",
+                    "rule1b: one self-chosen value serves two different secrets of the same artifact",
+                    dict(brief(s), also=brief(t)))
         if not (s["bad3"] or repeated):
             continue
         org = s["origins"]
@@ -1087,7 +1106,7 @@ REPO_TESTS_THOROUGH = [["tests/sbfile"], ["tests/image/mbi"], ["tests/utils/cryp
 
 # directed witnesses are deterministic: the options that decide whether the defect shows are pinned
 DIRECTED_FORCE = {"bootimgrt_add_image": {"dek": "empty"}, "mbi_ctor": {"hmac": 0, "keysource": "OTP"},
-                  "hab_config": {"shared_dir": True}}
+                  "hab_config": {"shared_dir": True}, "mbi_config": {"shared_cfg": True}}
 
 
 def cases(tier, seed):  # noqa: ARG001
